@@ -16,6 +16,7 @@ package c16
 
 import (
 	"fmt"
+	"os"
 	"runtime"
 	"runtime/debug"
 	"sort"
@@ -58,15 +59,15 @@ type fail struct {
 
 // outcome is what one executed round reports.
 type outcome struct {
-	fails       []fail
-	overlap     bool // >= 2 closers were inside Close at the same time
-	maxInside   int  // max number of closers simultaneously inside Close
-	pathInside  bool // a completion path was triggered while a closer was inside Close (or within the closers' hull)
-	pathsFired  int
-	class       string
-	extraClass  []string
-	extra       map[string]int64
-	skipped     bool
+	fails      []fail
+	overlap    bool // >= 2 closers were inside Close at the same time
+	maxInside  int  // max number of closers simultaneously inside Close
+	pathInside bool // a completion path was triggered while a closer was inside Close (or within the closers' hull)
+	pathsFired int
+	class      string
+	extraClass []string
+	extra      map[string]int64
+	skipped    bool
 }
 
 func (o *outcome) failf(key, format string, a ...any) {
@@ -82,6 +83,8 @@ func (o *outcome) add(k string, n int64) {
 
 var t0 = time.Now()
 
+var debugTiming = os.Getenv("C16_DEBUG") != ""
+
 func nowNS() int64 { return int64(time.Since(t0)) }
 
 type span struct {
@@ -95,11 +98,20 @@ type race struct {
 	flag    atomic.Int32
 	ready   atomic.Int32
 	n       int32
+	slots   [24]beatSlot // heartbeat of every spinner (own cache line each)
+	allLive bool         // every spinner was observed running right before the release
 	wg      sync.WaitGroup
 	mu      sync.Mutex
 	fails   []fail
 	closers []span
 	paths   []span
+}
+
+// beatSlot is bumped by a spinner on every loop iteration; the releaser uses it to see
+// which spinners are on a CPU right now.
+type beatSlot struct {
+	beat atomic.Uint64
+	_    [56]byte
 }
 
 func newRace(comp string) *race { return &race{comp: comp} }
@@ -160,12 +172,15 @@ const (
 
 // spin registers an actor: it parks on the spin barrier and runs fn at release.
 func (r *race) spin(kind int, name string, fn func()) {
+	idx := int(r.n) % len(r.slots)
 	r.n++
 	r.wg.Add(1)
 	go func() {
 		defer r.wg.Done()
+		s := &r.slots[idx]
 		r.ready.Add(1)
-		for r.flag.Load() == 0 {
+		for b := uint64(1); r.flag.Load() == 0; b++ {
+			s.beat.Store(b)
 		}
 		sp := span{name: name, in: nowNS()}
 		r.guard(name, fn)
@@ -191,9 +206,40 @@ func (r *race) bg(name string, fn func()) {
 }
 
 // release waits until every actor spins, then flips the flag.
+// release waits until every actor spins, then flips the flag at a moment when all of them
+// were just seen making progress (on a loaded machine a spinner that is descheduled at the
+// flip starts late and the round degenerates to serial closes). Gives up after 3 ms.
 func (r *race) release() {
 	for r.ready.Load() < r.n {
 		runtime.Gosched()
+	}
+	n := int(r.n)
+	if n > len(r.slots) {
+		n = len(r.slots)
+	}
+	var last [24]uint64
+	deadline := time.Now().Add(3 * time.Millisecond)
+	for tries := 0; ; tries++ {
+		for i := 0; i < n; i++ {
+			last[i] = r.slots[i].beat.Load()
+		}
+		for k := 0; k < 60; k++ {
+			_ = r.ready.Load()
+		}
+		all := true
+		for i := 0; i < n; i++ {
+			if r.slots[i].beat.Load() == last[i] {
+				all = false
+				break
+			}
+		}
+		if all {
+			r.allLive = true
+			break
+		}
+		if tries&15 == 15 && time.Now().After(deadline) {
+			break
+		}
 	}
 	r.flag.Store(1)
 }
@@ -215,6 +261,9 @@ func (r *race) measure(o *outcome) {
 	r.mu.Lock()
 	defer r.mu.Unlock()
 	o.fails = append(o.fails, r.fails...)
+	if r.allLive {
+		o.add("barrier_all_spinners_live_at_release", 1)
+	}
 	type ev struct {
 		t int64
 		d int
@@ -349,7 +398,14 @@ func settle(prefixes []string, base gsnap, maxWait time.Duration) []string {
 			return nil
 		}
 		if time.Now().After(deadline) {
-			return l
+			// goroutines that are runnable are finishing late (starved on a loaded machine), not
+			// leaked: keep polling, but never longer than 5x the bound
+			if _, prog := repoGoroutines(0); !prog || time.Now().After(deadline.Add(4*maxWait)) {
+				return l
+			}
+		}
+		if debugTiming && i > 6 {
+			fmt.Printf("SETTLE i=%d %v\n", i, l)
 		}
 		time.Sleep(sleep)
 		if sleep < 20*time.Millisecond {
@@ -390,3 +446,66 @@ type counter struct{ n atomic.Int32 }
 
 func (c *counter) hit() int32 { return c.n.Add(1) }
 func (c *counter) get() int   { return int(c.n.Load()) }
+
+// repoGoroutines returns the stacks of all goroutines that have a tunnox-core/internal frame
+// (file lines dropped), and whether any of them is running or runnable (i.e. making or about
+// to make progress, as opposed to blocked).
+func repoGoroutines(max int) (dump string, progressing bool) {
+	buf := make([]byte, 1<<20)
+	n := runtime.Stack(buf, true)
+	var sb strings.Builder
+	for _, g := range strings.Split(string(buf[:n]), "\n\n") {
+		if !strings.Contains(g, "tunnox-core/internal/") {
+			continue
+		}
+		lines := strings.Split(g, "\n")
+		if strings.Contains(lines[0], "[running") || strings.Contains(lines[0], "[runnable") {
+			progressing = true
+		}
+		if sb.Len() > max {
+			continue
+		}
+		for _, ln := range lines {
+			if strings.HasPrefix(ln, "\t") {
+				continue
+			}
+			if i := strings.LastIndex(ln, "("); i > 0 && !strings.HasPrefix(ln, "goroutine ") && !strings.HasPrefix(ln, "created by ") {
+				ln = ln[:i]
+			}
+			sb.WriteString(ln)
+			sb.WriteString(" | ")
+		}
+		sb.WriteString("\n")
+	}
+	return sb.String(), progressing
+}
+
+// waitBlocked waits for all harness goroutines of the race. It returns ok=false only when they
+// have not returned after soft AND every goroutine inside the code under test is blocked (not
+// runnable) in two samples: on a loaded machine a starved goroutine is slow, not stuck. After
+// hard the verdict is given regardless.
+func (r *race) waitBlocked(soft, hard time.Duration) (ok bool, dump string) {
+	if r.wait(soft) {
+		return true, ""
+	}
+	start := time.Now()
+	for {
+		d, prog := repoGoroutines(3000)
+		if !prog {
+			time.Sleep(50 * time.Millisecond)
+			d2, prog2 := repoGoroutines(3000)
+			if !prog2 {
+				if r.wait(time.Millisecond) {
+					return true, ""
+				}
+				return false, d2
+			}
+		}
+		if time.Since(start) > hard-soft {
+			return false, d
+		}
+		if r.wait(500 * time.Millisecond) {
+			return true, ""
+		}
+	}
+}
